@@ -154,23 +154,36 @@ func NewASReq(realm string, c *config.Config, cname, sname types.PrincipalName) 
 
 // NewTGSReq generates a new KRB_TGS_REQ struct.
 func NewTGSReq(cname types.PrincipalName, kdcRealm string, c *config.Config, tgt Ticket, sessionKey types.EncryptionKey, sname types.PrincipalName, renewal bool) (TGSReq, error) {
+	return NewTGSReqWithClientRealm(cname, tgt.Realm, kdcRealm, c, tgt, sessionKey, sname, renewal)
+}
+
+// NewTGSReqWithClientRealm generates a new KRB_TGS_REQ struct whose authenticator names crealm as the realm of the client.
+// NewTGSReq takes the realm that issued the TGT for it, which is right for the TGT of the client's own realm and for a
+// cross-realm TGT issued by that realm, but not for a cross-realm TGT handed out further along a referral chain
+// (krbtgt/C issued by B for a client of A): the KDC compares the authenticator with the client named inside the ticket.
+func NewTGSReqWithClientRealm(cname types.PrincipalName, crealm, kdcRealm string, c *config.Config, tgt Ticket, sessionKey types.EncryptionKey, sname types.PrincipalName, renewal bool) (TGSReq, error) {
 	a, err := tgsReq(cname, sname, kdcRealm, renewal, c)
 	if err != nil {
 		return a, err
 	}
-	err = a.setPAData(tgt, sessionKey)
+	err = a.setPAData(tgt, sessionKey, crealm)
 	return a, err
 }
 
 // NewUser2UserTGSReq returns a TGS-REQ suitable for user-to-user authentication (https://tools.ietf.org/html/rfc4120#section-3.7)
 func NewUser2UserTGSReq(cname types.PrincipalName, kdcRealm string, c *config.Config, clientTGT Ticket, sessionKey types.EncryptionKey, sname types.PrincipalName, renewal bool, verifyingTGT Ticket) (TGSReq, error) {
+	return NewUser2UserTGSReqWithClientRealm(cname, clientTGT.Realm, kdcRealm, c, clientTGT, sessionKey, sname, renewal, verifyingTGT)
+}
+
+// NewUser2UserTGSReqWithClientRealm is NewUser2UserTGSReq with the realm of the client given explicitly (see NewTGSReqWithClientRealm).
+func NewUser2UserTGSReqWithClientRealm(cname types.PrincipalName, crealm, kdcRealm string, c *config.Config, clientTGT Ticket, sessionKey types.EncryptionKey, sname types.PrincipalName, renewal bool, verifyingTGT Ticket) (TGSReq, error) {
 	a, err := tgsReq(cname, sname, kdcRealm, renewal, c)
 	if err != nil {
 		return a, err
 	}
 	a.ReqBody.AdditionalTickets = []Ticket{verifyingTGT}
 	types.SetFlag(&a.ReqBody.KDCOptions, flags.EncTktInSkey)
-	err = a.setPAData(clientTGT, sessionKey)
+	err = a.setPAData(clientTGT, sessionKey, crealm)
 	return a, err
 }
 
@@ -225,7 +238,7 @@ func tgsReq(cname, sname types.PrincipalName, kdcRealm string, renewal bool, c *
 	}, nil
 }
 
-func (k *TGSReq) setPAData(tgt Ticket, sessionKey types.EncryptionKey) error {
+func (k *TGSReq) setPAData(tgt Ticket, sessionKey types.EncryptionKey, crealm string) error {
 	// Marshal the request and calculate checksum
 	b, err := k.ReqBody.Marshal()
 	if err != nil {
@@ -242,7 +255,7 @@ func (k *TGSReq) setPAData(tgt Ticket, sessionKey types.EncryptionKey) error {
 
 	// Form PAData for TGS_REQ
 	// Create authenticator
-	auth, err := types.NewAuthenticator(tgt.Realm, k.ReqBody.CName)
+	auth, err := types.NewAuthenticator(crealm, k.ReqBody.CName)
 	if err != nil {
 		return krberror.Errorf(err, krberror.KRBMsgError, "error generating new authenticator")
 	}
